@@ -115,11 +115,29 @@ def audit(prop, theorems):
     res = {"obligations": len(theorems), "discharged": 0, "failures": [], "axioms": {}, "modules": mods}
     rc, log = lake_build(mods)
     if rc != 0:
-        # find which modules failed; every theorem of a failed module is undischarged
-        res["failures"].append({"kind": "build", "log": log[-6000:]})
-        bad = set(re.findall(r"Building (Relay\.[\w.]+)", "\n".join(l for l in log.split("\n") if "✖" in l)))
-        res["failed_modules"] = sorted(bad)
-        return res
+        # which modules fail? build them one by one: the theorems of a module that does not build are the broken obligations (named),
+        # the theorems of the others are still audited
+        good, logs = [], {}
+        for m in mods:
+            rc1, log1 = lake_build([m])
+            if rc1 == 0:
+                good.append(m)
+            else:
+                logs[m] = log1
+        res["failed_modules"] = sorted(logs)
+        for name, m in theorems:
+            if m in logs:
+                errs = [l for l in logs[m].split("\n") if l.startswith("error:")]
+                res["failures"].append({"kind": "build", "theorem": name, "module": m, "first_errors": errs[:6], "log": logs[m][-3000:]})
+        if not logs:     # the joint build failed but every module builds alone (should not happen): report the build
+            res["failures"].append({"kind": "build", "log": log[-6000:]})
+            return res
+        theorems = [(n, m) for n, m in theorems if m in good]
+        body = "".join(f"import {m}\n" for m in good) + "\n" + "".join(f"#print axioms {n}\n" for n, _ in theorems)
+        open(path, "w").write(body)
+        mods = good
+        if not theorems:
+            return res
     with Lock("lake"):
         rc, out, err = sh(["lake", "env", "lean", path], cwd=LEAN, timeout=1200)
     txt = out + err
